@@ -82,6 +82,7 @@ Section Pres.
     all: try (match goal with |- pshape (?x :: ?r) => apply (pshape_chain [x] r); [reflexivity|exact Hp'] end).
     all: try (apply (pshape_chain []); [reflexivity|exact Hp']).
     all: try (apply pshape_chain; [first [apply chain_opt_wake|apply chain_wake_frames]|exact Hp']).
+    all: try (apply pshape_m; [reflexivity|apply chain_wake_frames]).
   Qed.
 End Pres.
 
